@@ -4,7 +4,7 @@ from common import *
 from machine import Mem
 
 
-def run_one(prog, labels, words, first_round, windowed):
+def run_one(prog, labels, words, first_round, windowed, entry="ascon_permute"):
     N = words.shape[1]
     mem = Mem(N, 4)
     mem.ptrcells = {}
@@ -41,7 +41,7 @@ def run_one(prog, labels, words, first_round, windowed):
                 raise EmuError("stack pointer loaded with data")
             mem.set_sp(v)
 
-    pc, steps = labels["ascon_permute"], 0
+    pc, steps = labels[entry], 0
     while True:
         if pc >= len(prog):
             raise EmuError("fell off the end of the program")
@@ -164,6 +164,7 @@ def run(rep, variant, X, tier):
             for pmsg in sorted(set(problems))[:4]:
                 rep.fail("abi:" + name, "first_round=%d: %s" % (fr, pmsg))
             total += X.shape[1]
+        total += second_entry(rep, labels, lambda: run_one(prog, labels, words, 0, windowed, entry="ascon_backend_free")[::2], words, ":" + name)
         print("SAMPLE emulated xtensa (%s ABI): %d instructions, %d states x 12 starting rounds" % (name, len(prog), X.shape[1]))
     rep.stat("evaluations", total)
     rep.stat("nontrivial", total)
